@@ -87,6 +87,13 @@ func TestC03(t *testing.T) {
 			"createIndex":  func(t *rapid.T) { mc.ActCreateIndex(t) },
 			"createIndex2": func(t *rapid.T) { mc.ActCreateIndex(t) },
 			"dropIndex":    func(t *rapid.T) { mc.ActDropIndex(t) },
+			// a value column that (as far as the model knows) carries no index is dropped: an index that was
+			// dropped through DropColumn(indexName) is still attached to it inside the library, and its name
+			// may be in use again on another column
+			"dropColumn": func(t *rapid.T) {
+				mc.ActDropColumn(t)
+				mc.CheckIndexes(t, mc.C, "after DropColumn of a column without a live index", nil)
+			},
 		})
 		mc.CheckFull(t, false)
 		mc.CheckIndexes(t, mc.C, "at the end", mc.M.Live()[:min(len(mc.M.Rows), 20)])
